@@ -8,7 +8,8 @@ PID = "C15"
 
 
 def wanted_replay(clause):
-    return clause in ("replay.seen", "replay.storage")
+    # replay.draw_kind_range: the number of inner samples (constructor value / per-call override) fixes the draws of a call
+    return clause in ("replay.seen", "replay.storage", "replay.draw_kind_range")
 
 
 def wanted_trace(clause, trace, call):
@@ -19,7 +20,7 @@ def run(tier, seed):
     ctx = core.Ctx(PID, tier, seed)
     quick = tier == "quick"
     rng = random.Random(seed)
-    X.mc_stage(ctx, ["sage_a", "pfi_a"] if quick else ["sage_a", "pfi_a", "sage_b", "sage_c", "pfi_b", "pfi_c"],
+    X.mc_stage(ctx, ["sage_a", "pfi_a", "sage_o"] if quick else ["sage_a", "pfi_a", "sage_o", "pfi_o", "sage_def", "pfi_def", "sage_b", "sage_c", "pfi_b", "pfi_c"],
                "BudgetOnExplained FirstCallNoModel FirstCallSeedsOnly StoreOnce StoreAfterExplanation "
                "NeverOwnBackground SeenCountsReturns")
     # the constructor / contract matrix: every TLC state is one implementation test
@@ -42,8 +43,8 @@ def run(tier, seed):
     ctx.traces += len(items)
     ctx.evaluations += len(items)
     ctx.sample({"matrix_item": items[len(items) // 2]})
-    X.replay_stage(ctx, ["sage_q", "pfi_q"] if quick else ["sage_q", "pfi_q", "sage_prod", "pfi_prod"], wanted_replay,
-                   limit=None if quick else 3000, rng=rng)
+    X.replay_stage(ctx, ["sage_q", "pfi_q", "sage_o"] if quick else ["sage_q", "pfi_q", "sage_o", "pfi_o", "sage_def", "sage_prod", "pfi_prod"],
+                   wanted_replay, limit=400 if quick else 3000, rng=rng)
     n = 100 if quick else 1200
     scs = E.fault_free_batch(rng, n, quick)
     for i, sc in enumerate(scs):
